@@ -1,15 +1,25 @@
 import Driver.Hist
+import Std.Data.HashMap
 open Driver
+
+abbrev Counts := Std.HashMap String Nat
+
+def outcomeClass (got : String) : String :=
+  if got.startsWith "err:" || got.startsWith "panic:" then (got.take 32).toString
+  else if got.startsWith "ok" then "ok"
+  else "val"
+
+def bump (c : Counts) (k : String) : Counts := c.insert k (c.getD k 0 + 1)
 
 /-- verify one transcript file of the history stream; prints one RESULT line per history -/
 partial def histLoop (h : IO.FS.Stream) (st : St) (cur : String) (lineNo : Nat) (nOps : Nat)
-    (failed : Bool) (nHist nBad : Nat) : IO (Nat × Nat) := do
+    (failed : Bool) (nHist nBad : Nat) (cnt : Counts) : IO (Nat × Nat × Counts) := do
   let line ← h.getLine
   if line.isEmpty then
     if cur != "" && !failed then IO.println s!"RESULT {cur} OK ops={nOps}"
-    return (nHist, nBad)
+    return (nHist, nBad, cnt)
   let line := line.trimAscii.toString
-  if line.isEmpty then histLoop h st cur (lineNo + 1) nOps failed nHist nBad
+  if line.isEmpty then histLoop h st cur (lineNo + 1) nOps failed nHist nBad cnt
   else
   let (lhs, got) := match line.splitOn " => " with
     | [a, b] => (a, b)
@@ -19,21 +29,24 @@ partial def histLoop (h : IO.FS.Stream) (st : St) (cur : String) (lineNo : Nat) 
   let f := lhs.splitOn " "
   if f.head? == some "hist" then
     if cur != "" && !failed then IO.println s!"RESULT {cur} OK ops={nOps}"
-    histLoop h {} (f.getD 1 "?") (lineNo + 1) 0 false (nHist + 1) nBad
-  else if failed then histLoop h st cur (lineNo + 1) nOps failed nHist nBad
+    histLoop h {} (f.getD 1 "?") (lineNo + 1) 0 false (nHist + 1) nBad cnt
+  else if failed then histLoop h st cur (lineNo + 1) nOps failed nHist nBad cnt
   else
     let r := stepOp st f
+    let cnt := bump cnt (f.headD "?" ++ "/" ++ outcomeClass got)
     if r.allowed.isEmpty || r.allowed.contains got then
-      histLoop h r.st cur (lineNo + 1) (nOps + 1) false nHist nBad
+      histLoop h r.st cur (lineNo + 1) (nOps + 1) false nHist nBad cnt
     else
       IO.println s!"RESULT {cur} SPECDIFF line={lineNo} op=[{lhs}] expected=[{" | ".intercalate r.allowed}] got=[{got}]"
-      histLoop h r.st cur (lineNo + 1) nOps true nHist (nBad + 1)
+      histLoop h r.st cur (lineNo + 1) nOps true nHist (nBad + 1) cnt
 
 def main (args : List String) : IO UInt32 := do
   match args with
   | ["hist", path] =>
     let h ← IO.FS.Handle.mk path .read
-    let (n, bad) ← histLoop (IO.FS.Stream.ofHandle h) {} "" 1 0 false 0 0
+    let (n, bad, cnt) ← histLoop (IO.FS.Stream.ofHandle h) {} "" 1 0 false 0 0 {}
+    for (k, v) in cnt.toList do
+      IO.println s!"STAT {k}={v}"
     IO.println s!"SUMMARY histories={n} specdiff={bad}"
     return 0
   | _ =>
